@@ -94,7 +94,8 @@ Definition regset (s : st) (w : N) : list N :=
   | Some (cs, _) => flat_map (chk_regs (s_base s) w) cs
   | None => []
   end
-  ++ (if w_op w =? OP_TailCallUpval then seqN (s_base s) (N.to_nat (w_c w)) else []).   (* args moved to the window start *)
+  ++ (if w_op w =? OP_TailCallUpval then seqN (s_base s) (N.to_nat (w_c w)) else [])   (* args moved to the window start *)
+  ++ (if w_op w =? OP_Print then [s_base s + w_a w] else []).   (* the verifier has no case for Print; the loop reads r[a] *)
 
 Definition memN (x : N) (l : list N) : bool := existsb (N.eqb x) l.
 
